@@ -710,6 +710,10 @@ class Evaluator:
             sc = T.strip(e["scrut"])
             if sc.get("k") == "Call" and sc["args"]:
                 inner = self.ev(sc["args"][0], st, depth)
+                # `r.map(f)?` is `f(r?)` (Result and Option alike)
+                if inner.k == "call" and len(inner.a) == 3 and inner.a[2].k in ("closure", "fnitem") and \
+                        inner.a[0] in ("core::result::Result::<T, E>::map", "core::option::Option::<T>::map"):
+                    return self.apply(inner.a[2], [Tm("try", (inner.a[1],), e)], depth)
                 return Tm("try", (inner,), e)
         if src.startswith("ForLoopDesugar"):
             if self.sites is not None:
@@ -1197,7 +1201,13 @@ def prune_nested(t, known=None, depth=0, known_not=None):
                 return b            # only the catch-all is left
         return Tm("match", (scrut, tuple(arms)), t.n)
     if t.k == "if":
-        return Tm("if", (t.a[0], prune_nested(t.a[1], known, depth + 1, known_not), prune_nested(t.a[2], known, depth + 1, known_not)), t.n)
+        ck = ("cond", t.a[0])
+        if ck in known:
+            return prune_nested(t.a[1] if known[ck] else t.a[2], known, depth + 1, known_not)
+        kt, kf = dict(known), dict(known)
+        kt[ck] = True
+        kf[ck] = False
+        return Tm("if", (t.a[0], prune_nested(t.a[1], kt, depth + 1, known_not), prune_nested(t.a[2], kf, depth + 1, known_not)), t.n)
     if t.k == "adt":
         fs = tuple((n, prune_nested(v, known, depth + 1, known_not)) for n, v in t.a[2])
         if len(fs) == 1 and t.a[1] in ("Ok", "Some", "Err") and isinstance(fs[0][1], Tm) and fs[0][1].k in ("match", "if"):
